@@ -31,6 +31,11 @@ CHECKS = {
    "Ambiguity is decided on the regular languages themselves: TLC's reachability over the product automaton is the intersection-emptiness test for all 190 pairs of notations, and every common word up to a length bound is replayed on the two real import functions to compare meanings; the integer notations' meaning and every printer are specified and replayed row by row, so a notation that claims another's strings, a wrong width or a lossy printer is found.",
    "NFAs come from regexp/syntax (trusted); integer rows bounded to widths <= 30 bit in TLC (32-bit integers); float round trips: all finite float16 patterns (every 7th in quick), boundary + random float32 patterns, all 8-bit and random 16-bit fixed-point patterns; IEEE rounding of conversions is not modelled. Width is compared after a round trip only where the exported text states it (bin, hex).",
    "DESIGN.md §4 C08", "bmverif"),
+ "C15": ("model_checking",
+   "TLA+ spec Simbox (rule grammar Print/Parse, rule list with edit actions, effect semantics ValAt/Fires/Expect) model-checked by TLC; grammar table and every transition of the edit-history graph replayed on the real simbox package; scenarios run on the real `bondmachine -sim` binary and its printed shows/CSV report trace-validated by TLC against the effect semantics",
+   "TLC proves Parse(Print(r)) = r and the short-form defaults on the specification, explores every Add/Del/Suspend/Reactivate/SaveLoad history of a bounded rule list and defines, from the documentation, what each rule form must inject, show and report at which tick; the real parser/printer, the real rule list and the real simulator binary are replayed against that, so a wrong tick comparison, a mis-resolved object, a lost valid side effect or a suspended rule that still acts is rejected at the iteration where it shows.",
+   "Effects are judged on one machine (free-running counter with a handshaked output) for 14 iterations, both run-ending modes, with set targets the machine never writes; the rule-free reference trace comes from the real VM. Seven scenario/mode combinations fail on the pinned tree for four genuine reasons (periodic set, event gets, on-exit on exhaustion) and are listed in known_findings.json. onrecv rules are checked for print/parse only (no simulator path consumes them and the property does not list them).",
+   "DESIGN.md §4 C15", "bmverif"),
 }
 NOT_APPLICABLE = {
  "C18": "static well-formedness of generated Verilog text (parse/lint judgement): no state, transitions or behaviour for a TLA+ specification to decide; see DESIGN.md §5",
